@@ -108,10 +108,15 @@ func nonce24(r *rand.Rand) *[24]byte {
 func TestC10(t *testing.T) {
 	m := mon.New(t, "C10")
 	defer m.Done()
-	m.Rule("per primitive a stream of (keys, nonce, message, out-argument shape) cases; message length walks 0..70 on every third case and is boundary-weighted (16k±1, 64k±1, 256k±1) up to 2000 otherwise; keys from box.GenerateKey / sign.GenerateKey over a deterministic reader or from libsodium's seed keypair. Each case is run in both directions: Go seals/signs/sums → libsodium opens/verifies and byte-compares; libsodium seals/signs → Go opens; plus one bit-flip per case that both sides must reject. Oracle = libsodium 1.0.18 in-process (crypto_secretbox_easy, crypto_box_easy/_beforenm/_afternm, crypto_box_seal, crypto_sign, crypto_auth). Distinct = (primitive, length class, out shape). Non-trivial = reached a byte comparison with libsodium.")
+	m.Rule("per primitive a stream of (keys, nonce, message, out-argument shape) cases; message length walks 0..70 on every third case and is boundary-weighted (16k±1, 64k±1, 256k±1) up to 2000 otherwise; keys from box.GenerateKey / sign.GenerateKey over a deterministic reader or from libsodium's seed keypair. Each case is run in both directions: Go seals/signs/sums → libsodium opens/verifies and byte-compares; libsodium seals/signs → Go opens; plus one bit-flip per case that both sides must reject. Oracle = libsodium 1.0.18 in-process (crypto_secretbox_easy, crypto_box_easy/_beforenm/_afternm, crypto_box_seal, crypto_sign, crypto_auth). Distinct = (primitive, length class, out shape). Non-trivial = reached a byte comparison with libsodium." + concRule)
 	m.Assume("libsodium 1.0.18 (Debian build) is the reference implementation named by the property; the secretbox ciphertext body is additionally cross-checked against the executable XSalsa20 specification (verif/ref/salsa), box public keys against verif/ref/x25519big")
 	m.Note("low-order and non-canonical peer public keys are judged against the NaCl definition crypto_box_beforenm = HSalsa20(X25519(sk,pk), 0^16) computed by the reference composition (verif/ref/x25519big ladder -> verif/ref/salsa HSalsa20; secretbox layer by libsodium under that key): Precompute has no error return to deviate from it. libsodium refuses low-order keys and is a witness only where it accepts.")
 
+	if mon.RaceBuild { // race variant: only the shared-value concurrency stream
+		concC10(m)
+		return
+	}
+	concC10(m)
 	perPrim := m.N(3000, 100000)
 
 	// ---- secretbox ----
